@@ -47,6 +47,12 @@ func (wl *WorkspaceLocker) Lock(ctx context.Context) error {
 	for {
 		logger.Debugf("Attempting to acquire workspace lock at %s", wl.lockFilePath)
 		file, err := os.OpenFile(wl.lockFilePath, os.O_RDWR|os.O_CREATE, 0644)
+		if errors.Is(err, os.ErrNotExist) {
+			// The directory was removed while we were waiting (grog clean --expunge): recreate it
+			if mkdirErr := os.MkdirAll(filepath.Dir(wl.lockFilePath), 0755); mkdirErr == nil {
+				file, err = os.OpenFile(wl.lockFilePath, os.O_RDWR|os.O_CREATE, 0644)
+			}
+		}
 		if err != nil {
 			return err
 		}
@@ -99,7 +105,12 @@ func (wl *WorkspaceLocker) Lock(ctx context.Context) error {
 func (wl *WorkspaceLocker) Unlock() error {
 	// Remove the path first and release the kernel lock second: a waiter that gets the kernel lock
 	// on the unlinked file notices that it is no longer at the path and starts over.
-	err := os.Remove(wl.lockFilePath)
+	// (only while the path still names our file: after `grog clean` removed the directory it may
+	// already name the lock file of a newer build)
+	var err error
+	if wl.lockFile == nil || isFileAtPath(wl.lockFile, wl.lockFilePath) {
+		err = os.Remove(wl.lockFilePath)
+	}
 	if wl.lockFile != nil {
 		wl.lockFile.Close()
 		wl.lockFile = nil
